@@ -24,10 +24,10 @@ RE_BADQ = re.compile(r'^<<"BADQ", (\d+), (-?\d+), (\d+), "(.*)", \{(.*)\}>>$')
 INF = 2000000000
 
 CURATED_STATES = {
-    "all": [("store", i) for i in range(1, 17)],
-    "ties": [("store", i) for i in (13, 1, 2, 3, 4, 5, 9, 14, 16)],
+    "all": [("store", i) for i in range(1, 18)],
+    "ties": [("store", i) for i in (13, 1, 2, 3, 17, 4, 5, 9, 14, 16)],
     "empty": [("store", 1), ("remove", 1)],
-    "leftovers": [("store", i) for i in (7, 11, 2, 1, 3, 4, 5, 6, 8, 15, 16, 12, 10, 13, 14, 9)] + [("remove", 4), ("reopen", 0), ("store", 7)],
+    "leftovers": [("store", i) for i in (7, 11, 2, 1, 3, 4, 5, 6, 8, 15, 16, 17, 12, 10, 13, 14, 9)] + [("remove", 4), ("reopen", 0), ("store", 7)],
 }
 
 
